@@ -695,7 +695,11 @@ func (cs CommitSig) ValidateBasic() error {
 				len(cs.ValidatorAddress),
 			)
 		}
-		// NOTE: Timestamp validation is subtle and handled elsewhere.
+		// NOTE: Timestamp validation is subtle and handled elsewhere; here only that
+		// the time can be encoded (it is part of the sign bytes).
+		if _, err := gogotypes.TimestampProto(cs.Timestamp); err != nil {
+			return fmt.Errorf("timestamp cannot be encoded: %v", err)
+		}
 		if len(cs.Signature) == 0 {
 			return errors.New("signature is missing")
 		}
@@ -879,6 +883,11 @@ func (commit *Commit) ValidateBasic() error {
 	if commit.Height >= 1 {
 		if commit.BlockID.IsZero() {
 			return errors.New("commit cannot be for nil block")
+		}
+		// the sign bytes are built from the block id: a malformed one (as JSON
+		// decoding lets through) makes building them panic
+		if err := commit.BlockID.ValidateBasic(); err != nil {
+			return fmt.Errorf("wrong BlockID: %v", err)
 		}
 
 		if len(commit.Signatures) == 0 {
